@@ -9,6 +9,7 @@ package forwarder
 import (
 	"net"
 	"slices"
+	"unicode/utf8"
 
 	"github.com/prometheus/client_golang/prometheus"
 	"github.com/prometheus/client_golang/prometheus/promauto"
@@ -73,6 +74,11 @@ func (m *dialerMetrics) close(addr string) {
 func addr2Host(addr string) string {
 	host, _, err := net.SplitHostPort(addr)
 	if err != nil {
+		return "unknown"
+	}
+	// The address comes from the client's request target.
+	// A label value that is not valid UTF-8 makes WithLabelValues panic.
+	if !utf8.ValidString(host) {
 		return "unknown"
 	}
 
